@@ -3,6 +3,7 @@
 set -e
 cd "$(dirname "$0")"
 export CARGO_NET_OFFLINE=true
+unset CARGO_TARGET_DIR CARGO_BUILD_TARGET_DIR
 mkdir -p .build evidence replays
 [ -f harness/Cargo.lock ] || cp /repo/Cargo.lock harness/Cargo.lock
 (cd harness && cargo build --offline --quiet) || { cp /repo/Cargo.lock harness/Cargo.lock; (cd harness && cargo build --offline --quiet); }
